@@ -148,7 +148,7 @@ def rule_S3(ctx, R):
                                   "the thread's key for the duration of the hold" % t["s"], *_floc(f)))
     for f in R.with_role("ACQ-GUARD") + R.with_role("ACQ-SCOPED"):
         res.ok(f["path"])
-    res.need(61, "key-taking APIs")
+    res.need(54, "key-taking APIs")
     return res
 
 
@@ -268,7 +268,7 @@ def rule_A2(ctx, R):
                               *_floc(f)))
         else:
             res.ok(f["path"])
-    res.need(30, "ACQ-SCOPED functions")
+    res.need(26, "ACQ-SCOPED functions")
     return res
 
 
